@@ -474,13 +474,12 @@ evaluated (so it ends in nil and the strict and the lenient reading coincide) an
 is ever entered. -/
 def coreFragment (ad : Adapters) : Adapters := { ad with coreOnly := true }
 
-/-- **`Adapter.restrictOps`** — like `coreFragment` a restriction of the *domain* of a theorem, never
-used by the streams: applying an operator for which `excl` holds ends the comparison
-(`RefErr.outOfDomain`).  `C01_main_core` uses it with the operators whose `ref_op_eq_*` theorem is
-not proved yet, so that the theorem is unconditional on every program that does not call one of
-them. -/
-def restrictOps (excl : Bytes → Bool) (ad : Adapters) : Adapters :=
-  { ad with lookup := fun g f op args => if excl op then .error .outOfDomain else ad.lookup g f op args }
+/-- **`Adapter.restrictCalls`** — like `coreFragment` a restriction of the *domain* of a theorem, never
+used by the streams: an operator call `(op, args)` for which `excl` holds ends the comparison
+(`RefErr.outOfDomain`).  `C01_main_core` uses it for the region of finding B (an unknown operator whose
+cost product `base · (multiplier + 1)` reaches `2^64`, where the pre-hard-fork `op_unknown` wraps). -/
+def restrictCalls (excl : Bytes → Tree → Bool) (ad : Adapters) : Adapters :=
+  { ad with lookup := fun g f op args => if excl op args then .error .outOfDomain else ad.lookup g f op args }
 
 /-- all consensus adapters (`lenient` additionally switches the finding on) -/
 def consensus (assigned : List Bytes) (assignedInGuard : Nat → List Bytes) (guardCost : Nat)
